@@ -1021,6 +1021,8 @@ func pathClass(p Path) string {
 		return "root"
 	case p.hasDescent():
 		return "descent"
+	case p.hasSlice():
+		return "slice"
 	case !p.definite():
 		return "wild"
 	}
@@ -1629,6 +1631,19 @@ func execPath(x *fw.Ctx, c Case) {
 				return
 			}
 			trace = append(trace, op.Op+" "+op.PStr)
+			continue
+		case "write":
+			// the document as written and read again must be the model's
+			res, err := w.eval(`(make-bag (bag-write b :pretty nil :json t))`)
+			if err != nil {
+				x.Fail("path op=write fail="+errSlug(err), "[%s] bag-write / make-bag of %s => %s", phase, short(model.canon()), err)
+				return
+			}
+			if inst, ok := bagOf(res); !ok || diffLoose(model, fromAny(inst.Any)) != nil {
+				x.Fail("path op=write fail=disagrees-with-get", "[%s] the written document differs from %s", phase, short(model.canon()))
+				return
+			}
+			trace = append(trace, "write")
 			continue
 		}
 		var (
